@@ -195,6 +195,7 @@ class ModelUpdate(Spec):
         has_out = "output.update" in tr
         out = [
             ("C19: step protocol: time, release, forcing, [output], tracker, ibm -- once each, in this order", tr == full or tr == without),
+            ("C03/C14: the forcing is advanced exactly once in every step, whatever the particles in the state (its time interpolation counts the steps; a step that depends on the presence of other particles breaks independence)", tr.count("forcing.update") == 1 and tr.count("time.update") == 1),
             ("C19/C07: the record is attempted exactly when step >= 0", (step >= 0) if has_out else (step < 0)),
             ("C19: the clock advanced by exactly one step", step == z3.Int("step_before") + 1),
         ]
